@@ -109,12 +109,19 @@ type affItem struct {
 	star *affLoop // or: the emissions of a loop body, repeated
 }
 
+type affCond struct {
+	op   string // < <= > >= == !=
+	l, r aval
+	neg  bool
+}
+
 type affState struct {
 	env     map[types.Object]aval
 	heap    map[string]aval
 	stores  []affStore
 	emits   map[string][]affItem // per target (canonical "X.Points")
 	cond    []string
+	sc      []affCond // structured comparisons among the path conditions
 	stopped string // "", return, continue, break
 	ret     aval
 	hasRet  bool
@@ -136,6 +143,7 @@ func (s *affState) clone() *affState {
 		n.emits[k] = append([]affItem{}, v...)
 	}
 	n.cond = append(n.cond, s.cond...)
+	n.sc = append(n.sc, s.sc...)
 	return n
 }
 
@@ -158,6 +166,12 @@ type affLoop struct {
 	forPost  string
 	initLin  *lin // for-loop: initial value of the counter
 	lastLin  *lin // for-loop: last value of the counter (bound-1 for <, bound for <=)
+	// iteration descriptor: the loop visits the elements of `container`; `elem` is the canonical reference of the visited
+	// element (the value variable, or container[key]); dir +1 ascending, -1 descending, 0 unknown; full = all indices
+	container string
+	elem      string
+	dir       int
+	full      bool
 	carried  map[string]*affCarried
 	paths    []*affState
 	parent   *affLoop
@@ -854,11 +868,26 @@ func (x *affExec) stmt(s ast.Stmt, st *affState) []*affState {
 			st = outs[0]
 		}
 		c := x.canon(v.Cond, st)
+		var sc *affCond
+		if be, ok := v.Cond.(*ast.BinaryExpr); ok {
+			switch be.Op {
+			case token.LSS, token.LEQ, token.GTR, token.GEQ, token.EQL, token.NEQ:
+				sc = &affCond{op: be.Op.String(), l: x.eval(be.X, st), r: x.eval(be.Y, st)}
+			}
+		}
 		a := st.clone()
 		a.cond = append(a.cond, c)
+		if sc != nil {
+			a.sc = append(a.sc, *sc)
+		}
 		outA := x.block(v.Body.List, []*affState{a})
 		b := st
 		b.cond = append(b.cond, "!("+c+")")
+		if sc != nil {
+			n := *sc
+			n.neg = true
+			b.sc = append(b.sc, n)
+		}
 		var outB []*affState
 		if v.Else != nil {
 			if eb, ok := v.Else.(*ast.BlockStmt); ok {
@@ -938,6 +967,7 @@ func (x *affExec) loop(s ast.Stmt, st *affState) []*affState {
 	inner.emits = map[string][]affItem{}
 	inner.stores = nil
 	inner.cond = nil
+	inner.sc = nil
 	var body *ast.BlockStmt
 	if r, ok := s.(*ast.RangeStmt); ok {
 		ls.kind = "range"
@@ -1012,6 +1042,55 @@ func (x *affExec) loop(s ast.Stmt, st *affState) []*affState {
 			if il, ok := x.eval(as.Rhs[0], st).(lin); ok {
 				ls.initLin = &il
 			}
+		}
+	}
+	// iteration descriptor
+	lenAtomOf := func(l *lin) (string, float64, float64) {
+		if l == nil {
+			return "", 0, 0
+		}
+		for a, c := range l.c {
+			if strings.HasPrefix(a, "len(") && strings.HasSuffix(a, ")") && len(l.c) == 1 {
+				return a[4 : len(a)-1], c, l.k
+			}
+		}
+		return "", 0, l.k
+	}
+	if ls.kind == "range" {
+		ls.container = ls.over
+		ls.full = true
+		ls.dir = 1
+		if ls.backward {
+			ls.dir = -1
+		}
+		switch {
+		case ls.valVar != "":
+			ls.elem = ls.valVar
+		case ls.keyVar != "":
+			ls.elem = ls.over + "[" + ls.keyVar + "]"
+		}
+	} else if ls.keyVar != "" && ls.initLin != nil {
+		if f, ok := s.(*ast.ForStmt); ok && f.Cond != nil {
+			if be, ok := f.Cond.(*ast.BinaryExpr); ok {
+				if id, ok := be.X.(*ast.Ident); ok && id.Name == ls.keyVar {
+					bound, _ := x.eval(be.Y, st).(lin)
+					switch {
+					case ls.forPost == ls.keyVar+"++" && ls.initLin.isConst() && ls.initLin.k == 0 && ls.lastLin != nil:
+						if c, co, k := lenAtomOf(ls.lastLin); c != "" && co == 1 && k == -1 {
+							ls.container, ls.dir, ls.full = c, 1, true
+						}
+					case ls.forPost == ls.keyVar+"--" && be.Op == token.GEQ && bound.isConst() && bound.k == 0:
+						if c, co, k := lenAtomOf(ls.initLin); c != "" && co == 1 && k == -1 {
+							ls.container, ls.dir, ls.full = c, -1, true
+							z := linConst(0)
+							ls.lastLin = &z
+						}
+					}
+				}
+			}
+		}
+		if ls.container != "" {
+			ls.elem = ls.container + "[" + ls.keyVar + "]"
 		}
 	}
 	idents, cells := x.assignedIn(body)
